@@ -201,7 +201,8 @@ fn case(c: &Case, rec: &mut Rec) {
 
 pub fn run(ctx: &mut Ctx) {
     let tier = ctx.tier;
-    let fs: Vec<Func> = functionals().into_iter().filter(|f| tier == Tier::Thorough || f.quick).collect();
+    // both tiers run every functional (the quick tier on fewer grid sizes)
+    let fs: Vec<Func> = functionals();
     let mut cases = vec![];
     for f in &fs {
         for &eta in &f.etas {
